@@ -30,8 +30,9 @@ def _lin(n):
         for k, v in b[0].items():
             terms[k] = terms.get(k, 0) + sign * v
         return {k: v for k, v in terms.items() if v != 0}, a[1] + sign * b[1]
-    if isinstance(n, (ast.BinOp, ast.Compare, ast.BoolOp, ast.IfExp, ast.Lambda)):
+    if isinstance(n, (ast.Compare, ast.BoolOp, ast.IfExp, ast.Lambda)):
         return None
+    # products / quotients are opaque terms
     return {ast.unparse(n): 1}, 0
 
 
